@@ -1,2 +1,178 @@
-(** C04 - property theorems (being written) *)
+(** C04 - sequence serialisation round-trips and is schema-valid: property theorems.
+    Model: Model/AbsRepr.v (abstract-representation codec over call logs),
+    Model/AbsJson.v (JSON, schema validator); tables: Gen/AbsSig.v, Gen/AbsSchema.v
+    (regenerated from the tree on every run). *)
+From Coq Require Import ZArith List Bool String.
 From PV Require Import Model.Base Model.AbsJson Gen.AbsSig Gen.AbsSchema Model.AbsRepr.
+From PV Require Import Proofs.AbsReprRT Proofs.AbsReprOps Proofs.AbsReprSeq.
+Import ListNotations.
+Open Scope string_scope.
+Open Scope Z_scope.
+
+(** Every well-formed parameter (number, array, variable, variable item with
+    any in-range integer / list / slice key, operator expression of any
+    depth over the regenerated operator tables) encodes, and the decoder
+    returns its normal form (explicit non-negative indices; same operator
+    tree): the same value for every assignment of the variables. *)
+Theorem C04_param_roundtrip : forall vars v, wf_par vars v = true ->
+    exists j v', enc v = Some j /\ norm v = Some v' /\ dec_param vars j = Some v'.
+Proof. exact dec_enc_param. Qed.
+Print Assumptions C04_param_roundtrip.
+
+(** The explicit index written for a negative index selects the same element. *)
+Theorem C04_index_semantics : forall (A : Type) (l : list A) i,
+    - Z.of_nat (List.length l) <= i < Z.of_nat (List.length l) ->
+    py_nth l (norm_index (Z.of_nat (List.length l)) i) = py_nth l i.
+Proof. exact @norm_index_same_element. Qed.
+Print Assumptions C04_index_semantics.
+
+(** If each logged call round-trips, the document's operation list decodes to
+    the specified calls, in order (composition over arbitrary call logs). *)
+Theorem C04_operations_compose : forall s vars calls,
+    Forall (rt_call s vars) calls ->
+    exists ops cs, concatM (enc_call_ops s) calls = Some ops
+                   /\ concatM (dec_op vars) ops = Some cs
+                   /\ concatM (norm_call_ops s) calls = Some cs.
+Proof. exact ops_roundtrip. Qed.
+Print Assumptions C04_operations_compose.
+
+(** Whole document: any sequence made of the header, channel declarations
+    (distinct names), operations that round-trip individually and an optional
+    measurement serialises to a document that decodes to exactly the
+    specified calls, with the same device, register and layout. *)
+Theorem C04_sequence_roundtrip :
+  forall name reg dev layout vars qids chs ops meas,
+    NoDup (map fst chs) -> NoDup (map fst vars) ->
+    Forall (fun v : string * (bool * Z) => 0 <= snd (snd v)) vars ->
+    Forall (fun c => str_in (c_name c) reserved = false) ops ->
+    let S := plain_seq name reg dev layout vars qids chs ops meas in
+    Forall (rt_call S (vctx vars)) ops ->
+    exists doc d cs,
+      encode_seq S = Some doc /\ decode_seq doc = Some d /\ norm_seq S = Some cs
+      /\ d_calls d = cs /\ d_device d = dev /\ d_register d = reg /\ d_layout d = layout.
+Proof. exact plain_seq_roundtrip. Qed.
+Print Assumptions C04_sequence_roundtrip.
+
+(** The hypotheses are satisfiable: a parametrized delay on a declared channel. *)
+Example C04_sequence_example :
+  let vars := [("n", (true, 1))] in
+  let ops := [mkCall "delay" [] [("duration", VItem "n" 1 (KInt (-1))); ("channel", VStr "ch");
+                                 ("at_rest", VBool false)]] in
+  let S := plain_seq "s" (JArr []) (JStr "MockDevice") None vars ["q0"] [("ch", "rydberg_global")] ops
+                     (Some "ground-rydberg") in
+  Forall (rt_call S (vctx vars)) ops
+  /\ (match encode_seq S with
+      | Some doc => match decode_seq doc, norm_seq S with
+                    | Some d, Some cs => calls_eqb (d_calls d) cs && valid gen_seq_defs 40 doc 40 gen_seq_root
+                    | _, _ => false
+                    end
+      | None => false
+      end) = true.
+Proof.
+  split.
+  - constructor; [|constructor]. apply rt_delay. reflexivity.
+  - vm_compute. reflexivity.
+Qed.
+
+(** Operations with parametrized arguments, optional arguments at default and
+    non-default values (elision and re-insertion of defaults). *)
+Theorem C04_delay_roundtrip : forall s vars d ch b,
+    wf_par vars d = true ->
+    rt_call s vars (mkCall "delay" [] [("duration", d); ("channel", VStr ch); ("at_rest", VBool b)]).
+Proof. exact rt_delay. Qed.
+Print Assumptions C04_delay_roundtrip.
+
+Theorem C04_enable_eom_roundtrip : forall s vars ch a d o b,
+    wf_par vars a = true -> wf_par vars d = true -> wf_par vars o = true ->
+    rt_call s vars (mkCall "enable_eom_mode" []
+      [("channel", VStr ch); ("amp_on", a); ("detuning_on", d); ("optimal_detuning_off", o);
+       ("correct_phase_drift", VBool b)]).
+Proof. exact rt_enable_eom. Qed.
+Print Assumptions C04_enable_eom_roundtrip.
+
+Theorem C04_add_eom_pulse_roundtrip : forall s vars ch du ph po pr b,
+    wf_par vars du = true -> wf_par vars ph = true -> wf_par vars po = true ->
+    rt_call s vars (mkCall "add_eom_pulse" []
+      [("channel", VStr ch); ("duration", du); ("phase", ph); ("post_phase_shift", po);
+       ("protocol", VStr pr); ("correct_phase_drift", VBool b)]).
+Proof. exact rt_add_eom_pulse. Qed.
+Print Assumptions C04_add_eom_pulse_roundtrip.
+
+(** A parametrized pulse with round-tripping waveforms, added with seq.add. *)
+Theorem C04_pulse_roundtrip : forall s vars a d ph po ch pr,
+    rt_wf vars a -> rt_wf vars d -> wf_par vars ph = true -> wf_par vars po = true ->
+    is_param a = true ->
+    rt_call s vars
+      (mkCall "add" []
+         [("pulse", VPObj "Pulse" [] [("amplitude", a); ("detuning", d); ("phase", ph); ("post_phase_shift", po)]);
+          ("channel", VStr ch); ("protocol", VStr pr)]).
+Proof. exact rt_add_pulse. Qed.
+Print Assumptions C04_pulse_roundtrip.
+
+(** The duration-0 template of Pulse.ConstantAmplitude. *)
+Theorem C04_constant_amplitude_roundtrip : forall s vars a d ph po ch pr,
+    wf_par vars a = true -> is_param a = true -> rt_wf vars d ->
+    wf_par vars ph = true -> wf_par vars po = true ->
+    rt_call s vars
+      (mkCall "add" []
+         [("pulse", VPObj "ConstantAmplitude" [VClass "Pulse"]
+                      [("amplitude", a); ("detuning", d); ("phase", ph); ("post_phase_shift", po)]);
+          ("channel", VStr ch); ("protocol", VStr pr)]).
+Proof. exact rt_add_const_amplitude. Qed.
+Print Assumptions C04_constant_amplitude_roundtrip.
+
+(** Waveforms: positional arguments are bound to the constructor's
+    parameters; omitted keyword arguments get the constructor's default. *)
+Theorem C04_waveform_positional : forall vars d v,
+    wf_par vars d = true -> wf_par vars v = true -> is_param d = true ->
+    rt_wf vars (VPObj "ConstantWaveform" [d; v] []).
+Proof. exact wf_const_pos. Qed.
+Print Assumptions C04_waveform_positional.
+
+Theorem C04_waveform_interpolated : forall vars d vs l,
+    wf_par vars d = true -> wf_par vars vs = true -> forallb is_lit l = true -> is_param vs = true ->
+    rt_wf vars (VPObj "InterpolatedWaveform" [] [("duration", d); ("values", vs); ("times", VList l)]).
+Proof. exact wf_interp_kw. Qed.
+Print Assumptions C04_waveform_interpolated.
+
+(** The regenerated tables agree: defaults substituted by the deserializer are
+    the defaults of the methods it calls; the keys the serializer elides have
+    such a default; the encoder's signatures list the constructors' leading
+    parameters; the names the serializer looks arguments up under are the
+    methods' parameter names. *)
+Theorem C04_defaults_agree : deser_defaults_agree = true.
+Proof. exact deser_defaults_agree_ok. Qed.
+Print Assumptions C04_defaults_agree.
+
+Theorem C04_signatures_match_constructors : signatures_match_constructors = true.
+Proof. exact signatures_match_constructors_ok. Qed.
+Print Assumptions C04_signatures_match_constructors.
+
+Theorem C04_serializer_names_are_parameters :
+  forallb (fun e => prefix_of (snd e) (meth_params (fst e))
+                    && Nat.eqb (List.length (snd e)) (List.length (meth_params (fst e))))
+          serializer_names = true.
+Proof. exact serializer_names_are_parameters. Qed.
+Print Assumptions C04_serializer_names_are_parameters.
+
+(** Refuted clauses (each replayed on the implementation, see
+    known_findings.d/C04.json). *)
+Theorem C04_round_refuted :
+  valid gen_seq_defs 40 round_doc 40 (SRef "ParametrizedNum") = true
+  /\ dec_param [("x", 1)] round_doc = None
+  /\ enc (VPObj "round" [VVar "x" 1] []) = None
+  /\ enc (VPObj "round_" [VVar "x" 1] []) = Some round_doc.
+Proof. exact round_refuted. Qed.
+Print Assumptions C04_round_refuted.
+
+Theorem C04_whole_variable_refuted :
+  enc (VVar "x" 1) = Some (JObj [("variable", JStr "x")])
+  /\ valid gen_seq_defs 40 (JObj [("variable", JStr "x")]) 40 (SRef "ParametrizedNum") = false
+  /\ valid gen_seq_defs 40 (JObj [("variable", JStr "x")]) 40 (SRef "ExprArgument") = true.
+Proof. exact whole_variable_refuted. Qed.
+Print Assumptions C04_whole_variable_refuted.
+
+Theorem C04_legacy_tanh_refuted :
+  str_in "tanh" gen_unary_ops = true /\ str_in "tanh" gen_supported_numpy = false.
+Proof. exact legacy_tanh_refuted. Qed.
+Print Assumptions C04_legacy_tanh_refuted.
